@@ -24,13 +24,20 @@ type commitRec struct {
 }
 
 type c13Recorder struct {
-	cdb  *storechk.CrashDB
-	base *dbm.MemDB
-	recs map[int64]*commitRec
-	pre  int
+	cdb   *storechk.CrashDB
+	base  *dbm.MemDB
+	recs  map[int64]*commitRec
+	pre   int
+	codes map[int64][]uint32 // DeliverTx result codes of the uninterrupted run, per block
 }
 
 func (m *c13Recorder) OnCall(e *sim.Env, c *sim.Call) {
+	if c.Kind == "deliver" {
+		if m.codes == nil {
+			m.codes = map[int64][]uint32{}
+		}
+		m.codes[c.H] = append(m.codes[c.H], c.ResDeliver.Code)
+	}
 	if c.Kind == "end" {
 		m.pre = m.cdb.Ops
 	}
@@ -190,18 +197,56 @@ func runC13App(c *Ctx, caseID string, seed uint64, pruning *[2]int64) {
 			if h == 1 {
 				e2.InitChain(db, spec)
 			}
+			var tr *codeTrace
+			if osGetenv("VCHECK_TRACE") != "" {
+				tr = &codeTrace{}
+				e2.Monitors = append(e2.Monitors, tr)
+			}
 			replayBlock(e2, h, true)
+			if tr != nil && h > 1 && len(tr.logs) > 0 {
+				fmt.Printf("   re-executed codes of block %d (crash point %d): %v last: %s\n", h, i, tr.codes, tr.logs[len(tr.logs)-1])
+			}
 			if e2.Dead {
 				rep.Violate("C13", "replay-dies/"+class, fmt.Sprintf("%s: re-executing the block kills the node: %s", where, e2.DeathNote))
 				continue
 			}
 			got := e2.A.Info(abci.RequestInfo{})
 			if got.LastBlockHeight != h || !bytes.Equal(got.LastBlockAppHash, ref.hash) {
-				rep.Violate("C13", "replay-hash-differs/"+class, fmt.Sprintf("%s: re-executed block gives height %d hash %X, the uninterrupted run %X", where, got.LastBlockHeight, got.LastBlockAppHash, ref.hash))
+				if osGetenv("VCHECK_TRACE") != "" {
+					fmt.Printf("   uninterrupted codes of block %d: %v\n", h, rec.codes[h])
+					seen := map[string]int{}
+					for _, le := range blockEntries[h] {
+						if le.Kind == "deliver" {
+							seen[string(le.Tx)]++
+							fmt.Printf("   block %d deliver %s (copy %d of these bytes in this block)\n", h, le.Label, seen[string(le.Tx)])
+						}
+					}
+				}
+				content := "the store content is the same (the difference is in the tree structure / node versions)"
+				if d := diffRawBrief(ref.raw, e2.A.DumpRaw()); d != "" {
+					content = "store content: " + d
+				}
+				rep.Violate("C13", "replay-hash-differs/"+class, fmt.Sprintf("%s: re-executed block gives height %d hash %X, the uninterrupted run %X; %s", where, got.LastBlockHeight, got.LastBlockAppHash, ref.hash, content))
 				continue
 			}
 			c.Res.count("c13.app.replays_ok", 1)
 		}
 	}
 	idx.SetLimit(false, 0)
+}
+
+type codeTrace struct {
+	codes []uint32
+	logs  []string
+}
+
+func (t *codeTrace) OnCall(e *sim.Env, c *sim.Call) {
+	if c.Kind == "deliver" {
+		t.codes = append(t.codes, c.ResDeliver.Code)
+		l := c.ResDeliver.Log
+		if len(l) > 160 {
+			l = l[:160]
+		}
+		t.logs = append(t.logs, c.Entry.Label+": "+l)
+	}
 }
